@@ -116,17 +116,15 @@ func JSONGetNaturalLanguageField(val *fastjson.Value, prop string) NaturalLangua
 		ob.Visit(func(key []byte, v *fastjson.Value) {
 			l := LangRefValue{}
 			l.Ref = LangRef(key)
-			if err := l.Value.UnmarshalJSON(v.GetStringBytes()); err == nil {
-				if l.Ref != NilLangRef || len(l.Value) > 0 {
-					n = append(n, l)
-				}
+			// NOTE: the parser has already decoded the string, it must not be parsed or unquoted again
+			l.Value = append(Content{}, v.GetStringBytes()...)
+			if l.Ref != NilLangRef || len(l.Value) > 0 {
+				n = append(n, l)
 			}
 		})
 	case fastjson.TypeString:
-		l := LangRefValue{}
-		if err := l.UnmarshalJSON(v.GetStringBytes()); err == nil {
-			n = append(n, l)
-		}
+		// NOTE: the parser has already decoded the string, it must not be parsed or unquoted again
+		n = append(n, LangRefValue{Ref: NilLangRef, Value: append(Content{}, v.GetStringBytes()...)})
 	}
 
 	return n
